@@ -11,12 +11,15 @@ CLAIMED = {
         design="4/C01", engine="order",
         technique="deterministic simulation: scheduler-owned set-iteration orders inside the Hopcroft-Karp "
                   "matcher (SimSet seam) + real PYTHONHASHSEED interpreters, value checked against enumeration/"
-                  "reference min-max matching model, minimised replayable case files",
+                  "reference min-max matching model; baton-scheduled concurrent caller threads with sys.settrace line "
+                  "preemption (sim/callers.py); minimised replayable case files",
         text="Seeded search over (diagram pair x short call history in the same process x iteration order of every "
              "str-keyed set in the matcher x warnings filter x input form: f64/f32/i64/i32/u16/u8 arrays, views, "
              "Fortran order, nested lists); every evaluation compared with a definition-level enumeration "
              "(sizes <= 4) or an independent threshold-search reference, and all orders/hash seeds must return "
-             "the bit-identical value. Exploration: evidence, not proof.",
+             "the bit-identical value; plus re-entrancy: the same evaluation while 1-2 other caller threads evaluate other "
+             "pairs under scheduler-decided line-level interleaving, pairs handed over as views into one buffer, and "
+             "NumPy error-state / print-option settings per case. Exploration: evidence, not proof.",
         note="Trusts numpy/scipy, my reference matcher (cross-checked against enumeration on every small case), and "
              "that any permutation of a str-keyed set is a legal CPython order."),
     "C06": dict(
@@ -46,7 +49,8 @@ CLAIMED = {
         text="Seeded search over (connected graph pair up to 10 vertices with exact reference, a thin tail up to 220 "
              "vertices under the size-free clauses x RNG draw schedule x mapping_sample_size_order); lower <= exact "
              "<= upper, multiples of 1/2, isomorphic => 0, with exact 2*mGH by branch-and-bound over all maps (validated "
-             "against flat enumeration for <= 4 vertices). Exploration.",
+             "against flat enumeration for <= 4 vertices); 2-3 concurrent caller threads sharing the one global RNG under the "
+             "baton scheduler; adjacency fills upper/symmetric/lower/mixed. Exploration.",
         note="Exact reference practical to about 9 vertices; larger graphs only get the size-free clauses."),
     "C17": dict(
         design="4/C17", engine="rng",
@@ -56,7 +60,8 @@ CLAIMED = {
         text="Seeded search over representations (list/dense/CSR/CSC/COO x fill x dtype incl. int8/uint8 and stored "
              "zeros), relabellings, collections of 2..12 graphs given as list, tuple or one 3-D array, and disconnected "
              "graphs under every RNG mode: identical lower bounds for identical labellings, "
-             "valid brackets everywhere, symmetric zero-diagonal matrices, warning + largest component. Exploration.",
+             "valid brackets everywhere, symmetric zero-diagonal matrices, warning + largest component (also when 2-3 caller "
+             "threads are inside the call at once: one warning per call must reach the recorder). Exploration.",
         note="Ties among largest components accept any of them; bool dtype only for lists/dense arrays."),
     "C12": dict(
         design="4/C12", engine="history",
@@ -67,7 +72,8 @@ CLAIMED = {
              "assignments / fits / idempotent re-assignments, 1..12 steps, 1..3 interleaved instances) biased to inexact "
              "quotients and non-multiples. After every step: width/height == extents, resolution*pixel_size == "
              "width/height, image shape == resolution, pixel boundaries where the reported geometry says (probe), "
-             "request covered with <= 1 pixel excess. Exploration.",
+             "request covered with <= 1 pixel excess; refits on the data of an earlier fit or on data with the same extremes; "
+             "fit data as f64/f32/int8..int64/uint8/uint16 arrays and nested lists. Exploration.",
         note="Identities rel 1e-9; probes resolve boundary errors above 1% of a pixel; only in-domain operations generated."),
     "C11": dict(
         design="4/C11", engine="parallel",
@@ -88,7 +94,9 @@ CLAIMED = {
         text="Seeded search over histories (2..14 ops, 1..4 estimators, 2..4 deliberately shifted/scaled/disjoint data "
              "sets): after every fit the instance equals a fresh estimator fitted once on the latest data, fit;transform "
              "== fit_transform, transform repeatable and state/input preserving, collection output k is the image of "
-             "diagram k under every worker schedule. Exploration.",
+             "diagram k under every worker schedule; the user may assign start/stop/num_steps (attribute, set_params, pinning "
+             "the reported value, releasing with None) or the imager's pixel size / ranges between fits, and hand over "
+             "birth-persistence data (skew=False). Exploration.",
         note="The landscaper has no scheduling nondeterminism: simulation contributes interleaved histories and the "
              "reference twin; outputs compared rel 1e-9."),
     "C09": dict(
@@ -110,7 +118,8 @@ CLAIMED = {
         text="Seeded search over (clients x plotting calls x option combinations x which axes is current): scatter "
              "offsets == float32 points, infinity line inside the view, limits, title/labels/legend; matching plots: "
              "segment multiset == matching rows (matchings from the real distance functions under scheduler-owned set "
-             "orders), distinct style for a maximal row; isolation of every other axes, no stray figure. Exploration.",
+             "orders), distinct style for a maximal row, requested labels on both diagrams; isolation of every other axes, "
+             "no stray figure; label lists and arrays are objects the caller keeps and reuses across calls. Exploration.",
         note="Agg canvas, artists inspected as data; ax=None means the current axes; 2-D landscape plots are unchecked traffic."),
     "C19": dict(
         design="4/C19", engine="plot-env",
@@ -121,7 +130,9 @@ CLAIMED = {
         text="Seeded search over call histories (6..20 calls, 2..4 clients, 5 input representations, invalid calls "
              "included): no argument modified whether the call returned or raised; result == pristine-process reference "
              "(stateful estimators after replaying their own mutator prefix); seeded mGH reproducible; non-randomised "
-             "entry points leave the global RNG untouched; equal-valued representations agree. Exploration.",
+             "entry points leave the global RNG untouched; equal-valued representations agree; bursts of 2-3 pure entry "
+             "points executed by concurrent caller threads under the baton scheduler must equal the pristine reference "
+             "too. Exploration.",
         note="Reference and history run the same code in different process states; floats rel 1e-12. persistent_entropy's "
              "representation clause is limited to ndarray forms (its documented input)."),
 }
@@ -175,8 +186,10 @@ def main():
              "kind_free_text": "scheduler-owned joblib.Parallel: forked isolated workers, cooperative and line-preemptive baton threads"},
             {"name": "history", "path": "sim/runner.py, sim/shrink.py", "serves_properties": ["C09", "C12", "C18", "C19"],
              "kind_free_text": "seeded operation histories over shared objects, checked step by step against reference models"},
-            {"name": "plot-env", "path": "sim/env.py", "serves_properties": ["C19", "C20"],
-             "kind_free_text": "environment actor perturbing pyplot current axes, warnings filters and the global RNG between operations"},
+            {"name": "callers", "path": "sim/callers.py", "serves_properties": ["C01", "C05", "C17", "C19"],
+             "kind_free_text": "concurrent caller threads (re-entrancy): real threads, one baton, sys.settrace line events inside persim and the matcher as scheduler-decided preemption points"},
+            {"name": "plot-env", "path": "props/c19.py, props/c20.py, sim/runner.py", "serves_properties": ["C19", "C20"],
+             "kind_free_text": "environment actor perturbing pyplot current axes / figure registry, warnings filters, the global RNG, NumPy error state and print options between operations"},
         ],
         "checks": checks,
         "not_applicable": [{"property_id": k, "reason": v} for k, v in sorted(NOT_APPLICABLE.items())]
